@@ -47,7 +47,7 @@ func (f *Frame) exec(ins ssa.Instruction, st *State) bool {
 		f.bind(x, f.convert(f.val(x.X), x.Type(), st, x.Pos()))
 	case *ssa.MakeInterface:
 		v := f.val(x.X)
-		f.bind(x, Val{T: c.box(v), Typ: x.Type()})
+		f.bind(x, Val{T: c.box(v), Typ: x.Type(), Bind: []Val{v}})
 	case *ssa.TypeAssert:
 		f.bind(x, f.typeAssert(x, st))
 	case *ssa.Extract:
@@ -581,7 +581,7 @@ func (f *Frame) load(p Val, t types.Type, st *State, pos token.Pos) Val {
 
 // nonNil reports pointers that are non-nil by construction.
 func (f *Frame) nonNil(p Val) bool {
-	for _, pre := range []string{"ref$", "|ref$", "glob$", "|glob$", "(sub$", "(|sub$"} {
+	for _, pre := range []string{"ref$", "|ref$", "glob$", "|glob$", "(+ ref$", "(+ |ref$", "(+ glob$", "(+ |glob$", "(+ (+ ref$", "(+ (+ |ref$"} {
 		if strings.HasPrefix(p.T, pre) {
 			return true
 		}
